@@ -121,6 +121,20 @@ PayPoints == {<<M_UPDATE, ANY>>, <<M_ENTRY_GUARD, ANY>>}
 PayOpsQ == {O("ctor"), O("update"), Op("iwith", 1, 0, 1), Op("iwith", 0, 0, 2), Op("ito", 1, 0, 0), Op("with", 0, 0, 1), Op("pw", 0, 1, 1), Op("pw", 1, 0, 2), Op("succeed", 0, 0, 0), Op("succeed", 1, 0, 0)}
 PayActsQ == {A("W", 0, 0, 2), A("W", 1, 0, 1), A("T", 1, 0, 0), A("X", 0, 0, 0)}
 
+\* the unrestricted mix (simulation only: far too large to enumerate)
+SimOps == {O("ctor"), Op("ctor", 0, 0, 1), O("dtor"), O("enter"), O("exit"), O("update"), Op("react", 1, 0, 0), Op("query", 2, 0, 0), O("save"), O("px"), O("obs"),
+           Op("attach", 0, 0, 0), Op("attach", 1, 0, 0), Op("rt", NONE, 0, 0)}
+          \cup {Op("ito", d, 0, 0) : d \in States} \cup {Op("to", d, 0, 0) : d \in States}
+          \cup {Op("iwith", d, 0, p) : d \in States, p \in 1 .. 2} \cup {Op("with", d, 0, p) : d \in States, p \in 1 .. 2}
+          \cup {Op("pc", o, d, 0) : o \in States, d \in States} \cup {Op("pw", o, d, 1) : o \in States, d \in States} \cup {Op("pr", i, 0, 0) : i \in 0 .. 2}
+          \cup {Op("succeed", s, 0, 0) : s \in States} \cup {Op("fail", s, 0, 0) : s \in States}
+          \cup {Op("load", x, 0, 0) : x \in {0} \cup {1 + 2 * s : s \in States}}
+          \cup {Op("rt", d, 0, 0) : d \in States} \cup {Op("re", d, 0, 0) : d \in States}
+SimActs == {A("T", d, 0, 0) : d \in States} \cup {A("W", d, 0, 2) : d \in States} \cup {A("X", 0, 0, 0), A("S", NONE, 0, 0), A("F", NONE, 0, 0), A("PX", 0, 0, 0), A("PR", 0, 0, 0)}
+           \cup {A("S", s, 0, 0) : s \in States} \cup {A("F", s, 0, 0) : s \in States}
+           \cup {A("PC", o, d, 0) : o \in States, d \in States} \cup {A("PW", o, d, 1) : o \in States, d \in States}
+Inj1 == [i \in 1 .. (N + 1) |-> IF i = 1 THEN 1 ELSE IF i = 3 THEN 2 ELSE 0]
+
 \* logging: attach / detach, sparse classes
 LogOps == {O("ctor"), Op("ctor", 0, 0, 1), O("dtor"), O("update"), Op("react", 1, 0, 0), Op("query", 1, 0, 0), Op("attach", 0, 0, 0), Op("attach", 1, 0, 0)}
           \cup {Op("ito", d, 0, 0) : d \in States} \cup {Op("pc", 0, 1, 0), Op("succeed", 0, 0, 0), Op("fail", 0, 0, 0)}
